@@ -180,7 +180,18 @@ func (e *env) runFault() (stats []cpStats) {
 	if e.poisoned != "" {
 		return
 	}
+	// everything before this point was fault-free: leftovers here are not the failed creation's
+	e.open += depth
+	if sp.Parent == "custom" && depth > 0 {
+		e.openProp++
+	}
+	e.checkGoroutines("before the failing creation", "normal")
 	e.failingCreate(cr, int8(depth), fn, panics)
+	e.checkGoroutines("right after the failed creation(s)", "failed-create")
+	e.open -= depth
+	if sp.Parent == "custom" && depth > 0 {
+		e.openProp--
+	}
 	// the parents stay usable and are closed normally
 	for i := len(parents) - 1; i >= 0; i-- {
 		e.use(parents[i], pser[i], sp.Use)
@@ -193,6 +204,7 @@ func (e *env) runFault() (stats []cpStats) {
 	if e.poisoned != "" {
 		return
 	}
+	e.tailNormal = true // leftovers from here on come from the fault-free tail
 	stats = append(stats, e.checkpoint("after the failed creation(s), provider open", 4+depth, false))
 	e.safely("provider.Close", func() { _ = e.p.Close() })
 	stats = append(stats, e.checkpoint("after provider.Close", 4+depth, true))
